@@ -1,6 +1,6 @@
 """C12 - malformed or inconsistent input is rejected by an exception (post-JSON validation units only; see DESIGN.md)."""
 from C01 import TUS as T1
-MODELS = ['features/plume', 'features/plume_models/temperature/gaussian', 'features/continental_plate_models/velocity/uniform_raw', 'features/continental_plate_models/composition/uniform', 'features/continental_plate_models/grains/uniform',
+MODELS = ['features/plume', 'features/plume_models/temperature/gaussian', 'features/continental_plate_models/velocity/uniform_raw', 'features/continental_plate_models/composition/uniform', 'features/continental_plate_models/grains/uniform', 'features/oceanic_plate_models/grains/uniform', 'features/mantle_layer_models/grains/uniform', 'features/mantle_layer_models/grains/interface',
           'features/oceanic_plate_models/temperature/half_space_model', 'features/feature_utilities', 'objects/surface', 'kd_tree'] \
          + ['features/%s_models/%s/interface' % (f, k) for f in ('plume', 'continental_plate', 'oceanic_plate') for k in ('temperature', 'composition', 'grains', 'velocity')]
 TUS = ['c12.cc'] + T1[1:] + MODELS
@@ -18,7 +18,7 @@ OBLIGATIONS = [
     ob('C12.len.gaussian', 'h_c12_gaussian', [(d, t, s) for d in L2 for t in L2 for s in L2], ['gaussian: consistent list lengths are accepted', 'gaussian: depths, centerline temperatures and sigmas of different lengths are rejected with an exception', 'queried', 'end'], 'each list length 0..2'),
     ob('C12.len.velocity', 'h_c12_velocity', [(3,)], ['uniform raw velocity: a three-component vector is accepted', 'end'], 'the schema fixes the length to 3 (Array(Double,3,3)); other lengths cannot reach parse_entries'),
     ob('C12.len.composition', 'h_c12_composition', [(c, f) for c in L2 for f in L2], ['uniform composition: consistent list lengths are accepted', 'uniform composition: compositions and fractions of different lengths are rejected with an exception', 'queried', 'end'], 'each list length 0..2'),
-    ob('C12.len.grains', 'h_c12_grains', [(c, r, s) for c in (0, 1, 2) for r in (0, 1, 2) for s in (1, 2)], ['uniform grains: lists of different lengths are rejected with an exception', 'consistent', 'queried', 'end'], 'each list length 0..2'),
+    ob('C12.len.grains', 'h_c12_grains', [(c, r, s, f) for f in (0, 1, 2) for c in (0, 1, 2) for r in (0, 1, 2) for s in (1, 2)], ['uniform grains: lists of different lengths are rejected with an exception', 'consistent', 'queried', 'end'], 'each list length 0..2; continental / oceanic / mantle-layer families; Euler-angle and rotation-matrix input paths'),
     ob('C12.len.ridge', 'h_c12_ridge', [(1, 2, 1), (1, 2, 2), (1, 2, 3), (2, 2, 4), (2, 2, 2), (2, 2, 1)], ['half-space model: one spreading velocity or one per ridge point is accepted',
        'half-space model: a spreading-velocity list that matches neither 1 nor the number of ridge points is rejected with an exception', 'queried', 'end'], '1..2 ridges of 2 points, 0..4 spreading velocities'),
     ob('C12.opt.depthmethod', 'h_c12_depth_method', [()], ['an accepted depth method option leaves a defined, supported depth method', 'end'], 'the four option strings the schema allows for "depth method"', mode='fp'),
